@@ -321,7 +321,7 @@ def run(ctx):
     jobs.append(lambda: ctx.model("MC_NexusTokenOffset", "MC_NexusTokenOffset_%s.cfg" % tier, workers=4, env=JENV, heap="3g", timeout=6000))
     jobs.append(lambda: ctx.model("MC_NexusTokenOffset", "BlockLookahead_NexusToken.cfg", expect_violation="OffsetIndependentTree",
                                   count=False, workers=1, env=JENV, heap="2g"))
-    for name in ("protect", "quoted", "attr", "len", "empty"):
+    for name in ("protect", "quoted", "leadsemi", "attr", "len", "empty"):
         jobs.append(lambda name=name: ctx.model("MC_NewickRoundTrip", "AsShipped_NewickRoundTrip_%s.cfg" % name,
                                                 expect_violation="RoundTripHolds", count=False, workers=1, env=JENV, heap="2g"))
     errs = []
@@ -384,7 +384,7 @@ def run(ctx):
                 "internal node label (%d cases) on lists of 1-4 trees with all rooting states and lengths None/0/int/scientific floats; "
                 "(3) every state of MC_NewickRoundTrip (%d instances: all shapes up to the node bound x label/length patterns x rooting, "
                 "number-like and case-variant labels in every order with/without TRANSLATE and internal taxa, punctuation labels x option "
-                "pairs, lists of 0..n trees x rooting x weights x suppress_rooting+reader rooting); (4) %d seeded random instances "
+                "pairs, single-node trees whose only label is a punctuation character in lists of 1-3 x rooting x weights, lists of 0..n trees x rooting x weights x suppress_rooting+reader rooting); (4) %d seeded random instances "
                 "(labels <= 12 characters from the full alphabet, trees <= 10 leaves, lists of 0-4 trees, random consistent options, "
                 "Tree and TreeList API, string and file routes); (5) a padding sweep (see pad_sweep) and, on the model, MC_NexusTokenOffset: "
                 "token identity is independent of the stream offset for every pad length.  distinct_nontrivial = distinct (schema, options, api, label set, shapes, "
